@@ -257,9 +257,17 @@ class Sim:
         self.faults[name] = self.faults.get(name, 0) + n
 
     def digest(self):
+        """Digest of the event log; set-valued fields (source lists built from sets) are order-canonicalised."""
+        def canon(x):
+            if isinstance(x, dict):
+                return {k: (" ".join(sorted(v.split())) if k == "locations" and isinstance(v, str) else canon(v))
+                        for k, v in x.items()}
+            if isinstance(x, list):
+                return [canon(v) for v in x]
+            return x
         h = hashlib.sha256()
         for ev in self.events:
-            h.update(json.dumps(ev, sort_keys=True, default=str).encode())
+            h.update(json.dumps(canon(ev), sort_keys=True, default=str).encode())
         return h.hexdigest()[:20]
 
     # -- door ----------------------------------------------------------------------------
